@@ -88,6 +88,76 @@ def mkDisabled : RExp → RExp → RExp
   | d, inner => .disabled d inner
 
 mutual
+/-- `Exp.HasSplit` -/
+def hasSplitR : RExp → Bool
+  | .lit _ => false
+  | .arr xs => hasSplitRList xs
+  | .map kvs => hasSplitRFields kvs
+  | .struct kvs => hasSplitRFields kvs
+  | .ref _ _ _ => false
+  | .split _ _ _ => true
+  | .merge _ _ e => hasSplitR e
+  | .disabled d v => hasSplitR d || hasSplitR v
+  | .fork _ _ e => hasSplitR e
+def hasSplitRList : List RExp → Bool
+  | [] => false
+  | e :: es => hasSplitR e || hasSplitRList es
+def hasSplitRFields : List (String × RExp) → Bool
+  | [] => false
+  | (_, e) :: es => hasSplitR e || hasSplitRFields es
+end
+
+mutual
+/-- no `split` over call `c` anywhere inside -/
+def noSplitOf (c : String) : RExp → Bool
+  | .lit _ => true
+  | .arr xs => noSplitOfList c xs
+  | .map kvs => noSplitOfFields c kvs
+  | .struct kvs => noSplitOfFields c kvs
+  | .ref _ _ _ => true
+  | .split c' _ e => c' != c && noSplitOf c e
+  | .merge _ _ e => noSplitOf c e
+  | .disabled d v => noSplitOf c d && noSplitOf c v
+  | .fork _ _ e => noSplitOf c e
+def noSplitOfList (c : String) : List RExp → Bool
+  | [] => true
+  | e :: es => noSplitOf c e && noSplitOfList c es
+def noSplitOfFields (c : String) : List (String × RExp) → Bool
+  | [] => true
+  | (_, e) :: es => noSplitOf c e && noSplitOfFields c es
+end
+
+mutual
+/-- no `merge` over call `c` anywhere inside -/
+def noMergeOf (c : String) : RExp → Bool
+  | .lit _ => true
+  | .arr xs => noMergeOfList c xs
+  | .map kvs => noMergeOfFields c kvs
+  | .struct kvs => noMergeOfFields c kvs
+  | .ref _ _ _ => true
+  | .split _ _ e => noMergeOf c e
+  | .merge c' _ e => c' != c && noMergeOf c e
+  | .disabled d v => noMergeOf c d && noMergeOf c v
+  | .fork _ _ e => noMergeOf c e
+def noMergeOfList (c : String) : List RExp → Bool
+  | [] => true
+  | e :: es => noMergeOf c e && noMergeOfList c es
+def noMergeOfFields (c : String) : List (String × RExp) → Bool
+  | [] => true
+  | (_, e) :: es => noMergeOf c e && noMergeOfFields c es
+end
+
+/-- the result of `MergeExp.BindingPath` for a merge over call `c` whose (projected) value is
+`v`: "merging the elements of a collection which was split over the very same call gives back
+the collection (for example a mapped pipeline returning its split input)" — when the
+collection itself does not fork over the call.  `forksOverCall(sp.Value, call)` is modelled by
+`hasSplitR`: the collection is resolved in the scope of the CALLING pipeline, so a reference in
+it can fork over the call only if another call iterates in lockstep with it (not modelled). -/
+def mkMerge (c : String) (m : Bool) : RExp → RExp
+  | .split c' m' v => if c' == c && !hasSplitR v then v else .merge c m (.split c' m' v)
+  | e => .merge c m e
+
+mutual
 /-- `BindingPath(f)` on resolved expressions: through `split` and `merge` the
 projection is pushed inside (`SplitExp.BindingPath`, `MergeExp.BindingPath`) -/
 def bpR (fld : String) : RExp → RExp
@@ -97,7 +167,7 @@ def bpR (fld : String) : RExp → RExp
   | .struct kvs => (kvs.lookup fld).getD (.lit .null)
   | .ref node ty path => .ref node ty (path ++ [fld])
   | .split c m e => .split c m (bpR fld e)
-  | .merge c m e => .merge c m (bpR fld e)
+  | .merge c m e => mkMerge c m (bpR fld e)
   | .disabled d v => mkDisabled d (bpR fld v)
   | .fork c ix e => .fork c ix (bpR fld e)
 def bpRList (fld : String) : List RExp → List RExp
@@ -118,8 +188,11 @@ def wtR (st : StructTable) : Ty → RExp → Bool
   | t, .ref _ ty path => pathTy st ty path == t
   | t, .split _ false e => wtR st { t with arrDim := t.arrDim + 1 } e
   | t, .split _ true e => t.mapDim == 0 && wtR st ⟨t.base, t.arrDim + 1, 0⟩ e
-  | t, .merge _ false e => t.arrDim != 0 && wtR st { t with arrDim := t.arrDim - 1 } e
-  | t, .merge _ true e => t.arrDim == 0 && t.mapDim != 0 && wtR st ⟨t.base, 0, t.mapDim - 1⟩ e
+  -- (a merge over `c` of a value that contains a `split` over `c` is the cancelling shape of
+  -- `mkMerge`: its projection is not a merge, and is sound only for stores whose index set of `c`
+  -- is that of the split collection — `merge_split_cancel_sound`)
+  | t, .merge c false e => t.arrDim != 0 && noSplitOf c e && wtR st { t with arrDim := t.arrDim - 1 } e
+  | t, .merge c true e => t.arrDim == 0 && t.mapDim != 0 && noSplitOf c e && wtR st ⟨t.base, 0, t.mapDim - 1⟩ e
   | t, .disabled _ v => wtR st t v
   | t, .fork _ _ e => wtR st t e
 def wtRList (st : StructTable) : Ty → List RExp → Bool
